@@ -64,7 +64,9 @@ def fixLast (num : Num α) (g : List (Marker α)) (n : Int) : Res (List (Marker 
     let spb := num.div (num.sub ml.off mp.off) (num.ofInt di)
     match num.ceil32 (num.div (num.sub (num.ofInt n) ml.off) spb) with
     | none => .ub .float_cast_range
-    | some adj => do
+    | some adj =>
+      -- the track ends at or before the previous marker's beat: misplaced grid
+      if ml.index + adj ≤ mp.index then .throw .invalid_argument else do
       let il ← chk32 (ml.index + adj)
       pure ((⟨il, num.add ml.off (num.mul (num.ofInt adj) spb)⟩ :: mp :: revRest).reverse)
   | _ => .ok g
